@@ -90,7 +90,15 @@ inductive EKind where
 inductive Behav where
   | ret (r : Nat) (k : RKind := .plain)
   | raise (e : Nat) (k : EKind := .exception)
+  | syncCall (r : Nat)   -- a fake that delegates: it makes an ORDINARY SYNCHRONOUS call of another `@asynq()` function
+                         -- (`helper(x)`) and returns `r`.  Such a call is legal everywhere except inside asyncio mode
+                         -- (decorators.py `AsyncDecorator.__call__`: `if is_asyncio_mode(): raise RuntimeError(...)`)
   deriving Repr, DecidableEq, Inhabited
+
+/-- does what the callable does depend on `is_asyncio_mode()`? -/
+def Behav.modeSensitive : Behav → Bool
+  | .syncCall _ => true
+  | _ => false
 
 structure Obj where
   id : ObjId
@@ -126,6 +134,7 @@ def Obj.tok (o : Obj) : Tok :=
 inductive Exc where
   | user (e : Nat) (k : EKind := .exception)
   | typeError | attributeError | valueError
+  | runtimeError     -- "asyncio mode does not support synchronous calls"
   | other
   deriving Repr, DecidableEq, Inhabited
 
@@ -153,14 +162,26 @@ inductive Conv where
 
 def Conv.all : List Conv := [.sync, .value, .yield, .asyncio]
 
-/-- what the caller sees when the user-level callable returns / raises -/
+/-- what the caller sees when the user-level callable returns / raises (called outside asyncio mode) -/
 def Behav.out : Behav → Out
   | .ret r k => .ok r k
   | .raise e k => .raised (.user e k)
+  | .syncCall r => .ok r .plain
 
-/-- the user-level callable behind `o` runs once -/
-def invoke (o : Obj) (args : List Nat) (kw : List (Nat × Nat)) : ConvRes :=
-  { out := o.behav.out,
+/-- ... and when it runs while `is_asyncio_mode()` is true: the synchronous asynq call inside it raises -/
+def Behav.outIn (inMode : Bool) (b : Behav) : Out :=
+  if inMode && b.modeSensitive then .raised .runtimeError else b.out
+
+/-- does the `.asyncio` of the `asynq(sync_fn=new)(new)` decorator run `new` inside `AsyncioMode`?  No: `_maybe_wrap_new`
+    passes `asyncio_fn` = a bare coroutine function that calls `new.__func__` / `new` directly (like `_AsyncioWrapper`), and
+    `AsyncAndSyncPairDecorator.__get__` hands that `asyncio_fn` on to the decorator it rebuilds.  (Before that repair
+    `PureAsyncDecorator.asyncio` built it with `convert_asynq_to_async(fn)`, whose body is `with AsyncioMode(): return
+    fn(*args, **kwargs)`: `true`; with `true` the hypotheses `hm` of the `_partial` theorems are needed.) -/
+def pairAsyncioInMode : Bool := false
+
+/-- the user-level callable behind `o` runs once (`inMode`: with `is_asyncio_mode()` true) -/
+def invoke (o : Obj) (args : List Nat) (kw : List (Nat × Nat)) (inMode : Bool := false) : ConvRes :=
+  { out := o.behav.outIn inMode,
     calls := [{ callee := o.callee, args := args, kw := kw }] }
 
 def failWith (x : Exc) : ConvRes := { out := .raised x, calls := [] }
@@ -170,7 +191,10 @@ def failWith (x : Exc) : ConvRes := { out := .raised x, calls := [] }
     * `_AsyncioWrapper.__call__`: coroutine whose body is `self._mock_fn(*args, **kwargs)`;
     * AsyncAndSyncPairDecorator (decorators.py): `__call__` -> `sync_fn(*args)`; found on a class, `__get__`
       builds a fresh decorator around `sync_fn.__get__(owner, cls)` (so attributes set on the installed object
-      are not seen) whose `.asynq` / `.asyncio` run `fn(instance-or-class, *args)` in a task / coroutine. -/
+      are not seen) whose `.asynq` / `.asyncio` run `fn(instance-or-class, *args)` in a task / coroutine - the
+      coroutine being `convert_asynq_to_async(fn)`: `with AsyncioMode(): return fn(...)`.  So THIS path, and only
+      this one, runs the replacement with `is_asyncio_mode()` true (`_AsyncioWrapper` calls it from a bare coroutine;
+      the sync call, `.asynq().value()` and a yielded `.asynq()` never enter the mode). -/
 def conv (o : Obj) (via : Via) (c : Conv) (args : List Nat) (kw : List (Nat × Nat)) : ConvRes :=
   match o.shape with
   | .mock | .wrapper | .callobj =>
@@ -190,16 +214,18 @@ def conv (o : Obj) (via : Via) (c : Conv) (args : List Nat) (kw : List (Nat × N
         match bindPrefix d .plain with
         | some pre => invoke o (pre ++ args) kw
         | none => failWith .typeError
-      | _, false => invoke o args kw          -- the decorator's own .asynq/.asyncio: task around `fn` (= `new.__func__`)
-    | _ => invoke o ((bindPrefix d via).getD [] ++ args) kw
+      | _, false =>                           -- the decorator's own .asynq/.asyncio: task around `fn` (= `new.__func__`)
+        invoke o args kw (c == .asyncio && pairAsyncioInMode)
+    | _ => invoke o ((bindPrefix d via).getD [] ++ args) kw (c == .asyncio && pairAsyncioInMode)
   | .origAsync d =>
     -- an AsyncDecorator object (decorators.py / qcore DecoratorBase.__get__): found on a class it yields a binder that
     -- puts the instance (func, through an instance) / the class (classmethod) in front for `__call__`, `.asynq` and
     -- `.asyncio` alike; reached directly (module attribute, instance `__dict__`) nothing is put in front.  When it is a
     -- `new` that `__enter__` decorated (`attached`), `.asynq` / `.asyncio` are `_AsynqWrapper` / `_AsyncioWrapper`
     -- around the object itself (an instance attribute shadows the method; the binder goes through
-    -- `self.decorator.asynq`): the same single run of the function with the same arguments.
-    invoke o ((bindPrefix d via).getD [] ++ args) kw
+    -- `self.decorator.asynq` / `self.decorator.asyncio`): the same single run of the function with the same
+    -- arguments, outside asyncio mode.  Not decorated (an original), its own `.asyncio` runs the body in asyncio mode.
+    invoke o ((bindPrefix d via).getD [] ++ args) kw (c == .asyncio && !o.attached)
   | .value =>
     match c with
     | .sync => failWith .typeError            -- 'X' object is not callable
@@ -648,6 +674,22 @@ def Op.constructible (d : Defaults) : Op → Bool
   | .construct _ s => s.constructible d
   | _ => true
 
+/-- THE combination in which the four conventions do NOT agree in mock_.py as it is (see `conv`): the replacement is a
+    plain function / classmethod / staticmethod object (so `_maybe_wrap_new` makes the `asynq(sync_fn=new)(new)` pair),
+    it is reached through a class or an instance (so `__get__` rebuilds the pair and `_AsyncioWrapper` is bypassed), and
+    what it does depends on asyncio mode (`Behav.syncCall`) -/
+def PSpec.modeExposed (s : PSpec) (via : Via) : Bool :=
+  pairAsyncioInMode && (s.behav.modeSensitive && s.repl.desc?.isSome && via != .plain)
+
+/-- a patcher that can never be in that situation: not that kind of replacement, or a mode-insensitive one, or an
+    environment in which nothing is reached through a class / an instance -/
+def PSpec.modeSafe (env : Env) (s : PSpec) : Bool :=
+  !(pairAsyncioInMode && (s.behav.modeSensitive && s.repl.desc?.isSome)) || env.targets.all (fun ts => ts.via == .plain)
+
+def Op.modeSafe (env : Env) : Op → Bool
+  | .construct _ s => s.modeSafe env
+  | _ => true
+
 /-! ## The property C19 as an observer over observations (no model state involved) -/
 
 structure Watch where
@@ -655,7 +697,8 @@ structure Watch where
   stack : List (Entry Tok)        -- open patches, most recent first, with the object their __enter__ returned
   active : List Nat               -- started and not stopped, in start order
   skip : Option (Nat × Nat)
-  tainted : Bool                  -- the history left the well-nested discipline: nothing is claimed any more
+  tainted : Bool                  -- the history left the well-nested discipline: `watchStep` judges nothing any more
+                                  -- (shape and frame are still demanded of every observation: `watchRun`)
   bind : Nat → Nat := fun s => s  -- what each name refers to, from the `rebind` operations the observer saw
   entries : Nat → Nat := fun _ => 0  -- per patcher: how many objects its `__enter__`s have made so far (DEFAULT /
                                   -- new_callable make a NEW object at every entry)
@@ -755,6 +798,16 @@ def enterWatch (env : Env) (w : Watch) (ob : Obs) (p : Nat) (isStart : Bool) : E
         if ob.peeks == expectedPeeks env w' then .ok w' else .error "installed"
       | _ => .error "enter"
 
+/-- the four outcomes of a call against the one that is due; `none` = all four are that one -/
+def convClause (via : Via) (e : ConvRes) (rs : List ConvRes) : Option String :=
+  if rs == [e, e, e, e] then none
+  -- the same call log under all four, but `.asyncio(...)` alone ran the replacement in asyncio mode (its synchronous
+  -- asynq call was refused): named apart, and by access path, so that the signature of this failure is stable
+  else if rs == [e, e, e, { e with out := .raised .runtimeError }] then
+    some (if via == .plain then "asyncio-mode-reaches-replacement/direct"
+          else "asyncio-mode-reaches-replacement/through-class")
+  else some "conventions"
+
 /-- one observation against the watch state; returns the clause that fails -/
 def watchStep (env : Env) (w : Watch) (ob : Obs) : Except String Watch :=
   if w.tainted then .ok w else
@@ -823,7 +876,10 @@ def watchStep (env : Env) (w : Watch) (ob : Obs) : Except String Watch :=
           | some s =>
             match expectedConv e.p s e.o (env.tspec t).via args kw with
             | none => .ok w                  -- replacement not callable there
-            | some e => if rs == [e, e, e, e] then .ok w else .error "conventions"
+            | some e =>
+              match convClause (env.tspec t).via e rs with
+              | none => .ok w
+              | some c => .error c
       | _ => .error "call"
     | .peek => if ob.peeks == expectedPeeks env w then .ok w else .error "store"
     | .rebind s t =>
@@ -832,21 +888,59 @@ def watchStep (env : Env) (w : Watch) (ob : Obs) : Except String Watch :=
       else if ob.peeks != expectedPeeks env w then .error "store"
       else .ok { w with bind := upd w.bind s t }
 
-def watchRun (env : Env) (w : Watch) : List Obs → Except String Watch
+/-! ### what is demanded of EVERY observation, also after the history has left the well-nested discipline
+
+`watchStep` stops judging once `tainted` is set (which object an ill-nested history leaves where is unittest.mock's
+business, not C19's).  Two things hold whatever happened before and are checked for every observation:
+* shape: one entry per target in the store that is shown, and a result of the kind the operation can have (a `call`
+  answers with exactly four outcomes - also on an unpatched target or a non-callable replacement);
+* frame: constructing a patcher, calling, looking and re-binding a name never change what any host holds. -/
+
+/-- the kinds of result an operation can have -/
+def Res.fits : Op → Res → Bool
+  | _, .skipped => true
+  | .construct .., .made | .construct .., .raised _ => true
+  | .enter _, .entered _ | .enter _, .raised _ | .enter _, .noPatcher => true
+  | .start _, .entered _ | .start _, .raised _ | .start _, .noPatcher => true
+  | .exit .., .exited _ | .exit .., .raised _ | .exit .., .noPatcher => true
+  | .stop _, .stopped | .stop _, .notActive | .stop _, .raised _ | .stop _, .noPatcher => true
+  | .stopall, .unit | .stopall, .raised _ => true
+  | .call .., .called rs => rs.length == 4
+  | .peek, .unit => true
+  | .rebind .., .unit => true
+  | _, _ => false
+
+/-- operations that never write to a host -/
+def Op.readOnly : Op → Bool
+  | .construct .. | .call .. | .peek | .rebind .. => true
+  | _ => false
+
+def shapeOk (env : Env) (ob : Obs) : Bool := ob.peeks.length == env.targets.length && ob.res.fits ob.op
+
+/-- what the hosts hold before anything happened -/
+def initPeeks (env : Env) : List (Option Tok) :=
+  (List.range env.targets.length).map fun t => (env.initStore t).map Obj.tok
+
+/-- `last`: the store shown by the previous observation.  The clause of `watchStep` comes first, so the names of the
+    clauses it reports are unchanged. -/
+def watchRun (env : Env) (w : Watch) (last : List (Option Tok)) : List Obs → Except String Watch
   | [] => .ok w
   | ob :: obs =>
     match watchStep env w ob with
-    | .ok w' => watchRun env w' obs
     | .error e => .error (e ++ "@" ++ ob.op.name)
+    | .ok w' =>
+      if !shapeOk env ob then .error ("shape@" ++ ob.op.name)
+      else if ob.op.readOnly && ob.peeks != last then .error ("frame@" ++ ob.op.name)
+      else watchRun env w' ob.peeks obs
 
 /-- `Spec.C19`: the whole history of observations is accepted -/
 def spec (env : Env) (obs : List Obs) : Bool :=
-  match watchRun env watchInit obs with
+  match watchRun env watchInit (initPeeks env) obs with
   | .ok _ => true
   | .error _ => false
 
 def specClause (env : Env) (obs : List Obs) : String :=
-  match watchRun env watchInit obs with
+  match watchRun env watchInit (initPeeks env) obs with
   | .ok _ => "ok"
   | .error e => e
 
